@@ -760,7 +760,8 @@ func TestVHReplay(t *testing.T) {
 	}
 	outcome := vhReplayOnce()
 	// map iteration order is random natively: repeat until the recorded order comes up
-	for n := 0; n < 200 && vh.OrderSensitive() && (outcome == "passed" || outcome[:5] == "panic"); n++ {
+	// (olareg itself ranges over maps in places, so every replay gets a few attempts)
+	for n := 0; (n < 200 && vh.OrderSensitive() || n < 8) && (outcome == "passed" || (len(outcome) > 5 && outcome[:5] == "panic" && vh.OrderSensitive())); n++ {
 		vh.Rewind()
 		outcome = vhReplayOnce()
 	}
